@@ -234,8 +234,8 @@ pub fn run(seed: u64, ntraces: usize) {
                     script.extend([1602u64, 1702, 1802, 1600, 10, 1602]);
                 }
                 else if d == 10 {   // inbound battery: every routing variant for a transfer without data, the main ones for transfers with data and deployments
-                    for v in 0..14u64 { script.push(1600 + v); }
-                    script.extend([1700u64, 20, 20, 1702, 1708, 1709, 1711, 1713, 1808, 1800, 1802, 1809, 1811, 1813, 195]);
+                    for v in 0..18u64 { script.push(1600 + v); }
+                    script.extend([1700u64, 20, 20, 1702, 1708, 1709, 1711, 1713, 1714, 1716, 1808, 1800, 1802, 1809, 1811, 1813, 1815, 1816, 195]);
                 }
                 else if d == 11 {   // the service is paused while a transfer with data is in flight: failed and successful delivery, direct and hub-wrapped
                     script.extend([1700u64, 10, 21, 20, 10, 1702, 10, 20, 20, 10, 1700, 21, 10, 20, 10, 1700, 1700, 21, 24, 20, 20]);   // last part: a delivery fails while another of the same token is in flight
@@ -387,7 +387,7 @@ pub fn run(seed: u64, ntraces: usize) {
                     };
                     let inner = if let Some(i) = ftype { let mut p = inner.clone(); for b in p[0..32].iter_mut() { *b = 0; }
                         match i { 0 => p[24] = 0x80, 1 => p[23] = 1, 2 => p[0] = 0x80, 3 => p[31] = 6, 4 => p[31] = 7, _ => p[27] = 1 }; p } else { inner };
-                    let variant = if let Some(v) = fvar { v } else if g.paused && r.chance(1, 3) { 2 } else if r.chance(2, 3) { 0 } else { r.below(14) };
+                    let variant = if let Some(v) = fvar { v } else if g.paused && r.chance(1, 3) { 2 } else if r.chance(2, 3) { 0 } else { r.below(18) };
                     let (chain, src, payload): (Vec<u8>, Vec<u8>, Vec<u8>) = match variant {
                         1 => (b"avalanche".to_vec(), b"hub".to_vec(), inner.clone()),                                   // direct message from a hub-routed chain
                         2 => (b"axelar".to_vec(), b"axelar1hub".to_vec(), hub_wrap(b"avalanche", &inner, 4)),           // properly wrapped
@@ -401,6 +401,10 @@ pub fn run(seed: u64, ntraces: usize) {
                         11 => (b"axelar".to_vec(), b"axelar1hub".to_vec(), hub_wrap(if r.chance(1, 2) { b"unknown" } else { b"polygon" }, &inner, 4)),   // wrapped, original chain unknown / direct
                         12 => (b"axelarnet".to_vec(), b"0xITSnet".to_vec(), inner.clone()),                                // direct chain named like the hub + suffix: processed as direct
                         13 => (b"axelarnet".to_vec(), b"0xITSnet".to_vec(), hub_wrap(b"avalanche", &inner, 4)),            // ... and it can not speak for the hub
+                        14 => (b"ethereum".to_vec(), b"0xitsETH".to_vec(), inner.clone()),                                // the trusted address in another letter case: a different address
+                        15 => (b"axelar".to_vec(), b"AXELAR1HUB".to_vec(), hub_wrap(b"avalanche", &inner, 4)),            // the hub's address in another letter case
+                        16 => (b"axelar".to_vec(), b"axelar1evil".to_vec(), hub_wrap(b"avalanche", &inner, 4)),           // properly wrapped, from the hub's chain, but not from the hub's address
+                        17 => (b"ethereum".to_vec(), b"0xITSet".to_vec(), inner.clone()),                                 // a proper prefix of the trusted address
                         _ => (b"ethereum".to_vec(), b"0xITSeth".to_vec(), inner.clone()),
                     };
                     let approve = variant != 8;
